@@ -437,7 +437,21 @@ impl Engine for E7 {
                 num: if prog.chance(1, 5) { u64::MAX } else { prog.next_u64() >> prog.below(60) },
                 list_len: prog.usize_below(4),
                 dur: prog.weighted(&[60, 20, 20]) as u8,
-                tags: (0..3).map(|_| (hstr(&mut prog, 4), hstr(&mut prog, 4))).collect(),
+                tags: {
+                    let mut t: Vec<(String, String)> = (0..3).map(|_| (hstr(&mut prog, 4), hstr(&mut prog, 4))).collect();
+                    // a fifth of the invocations repeat a key: of a default tag, or of another tag
+                    if prog.chance(1, 5) {
+                        let dk: Vec<&String> = default_tags.iter().filter_map(|(k, _)| k.as_ref()).collect();
+                        if !dk.is_empty() && prog.chance(1, 2) {
+                            let i = prog.usize_below(3);
+                            t[i].0 = (*prog.pick(&dk)).clone();
+                        } else {
+                            let k = t[0].0.clone();
+                            t[1 + prog.usize_below(2)].0 = k;
+                        }
+                    }
+                    t
+                },
                 nested_arg: n_tags == 0 && prog.chance(1, 4),
             });
         }
